@@ -400,6 +400,7 @@ def _get_traffic_light_paris(
             (TrafficLightLabel.TRAFFIC_LIGHT, "yellow_right"),
             (TrafficLightLabel.TRAFFIC_LIGHT, "yellow_straight_left"),
             (TrafficLightLabel.TRAFFIC_LIGHT, "yellow_straight_right"),
+            (TrafficLightLabel.TRAFFIC_LIGHT, "yellow_straight_left_right"),
             (TrafficLightLabel.TRAFFIC_LIGHT, "red"),
             (TrafficLightLabel.TRAFFIC_LIGHT, "red_straight"),
             (TrafficLightLabel.TRAFFIC_LIGHT, "red_left"),
